@@ -53,7 +53,9 @@ def run(tier, seed):
             continue
         if req["kind"] == "number":
             desc = "sgno=%d cell_choice=%s" % (req["no"], req["setting"])
-            kw = dict(sgno=req["no"], cell_choice=req["setting"])
+            # the number as a Python int, a float (what reading '225' from a CIF gives), a numpy integer or a numpy float
+            kw = dict(sgno=[req["no"], float(req["no"]), np.int64(req["no"]), np.float64(req["no"])][(req["no"] + len(req["setting"])) % 4],
+                      cell_choice=req["setting"])
         elif req["kind"] == "nameset":
             text = _s(x["spelled"])
             desc = "sgname=%r cell_choice=%s" % (text, req["setting"])
